@@ -180,6 +180,61 @@ def over_time_frame_obligations(R):
          'trace-contract', time.time() - t0, '; '.join(bad[:4]), bad[:6] or None, bounded=f'{n} shapes; all contents')
 
 
+def estimator_and_maths_frame_obligations(R):
+    """numeric helpers handed user arrays: est_functions (time.py) and the public functions of aurel.maths /
+    aurel.numerical must not write into their arguments (read-only arrays + before/after comparison)."""
+    import aurel.time as T
+    import aurel.maths as M
+    import aurel.numerical as N
+    rng = np.random.default_rng(5)
+    t0 = time.time()
+    bad = []
+
+    def ro(a):
+        a = np.ascontiguousarray(a)
+        a.flags.writeable = False
+        return a
+    base = rng.standard_normal((4, 5, 6))
+    for name, f in T.est_functions.items():
+        a = ro(base.copy())
+        try:
+            f(a)
+        except ValueError as e:
+            bad.append(f'est_functions[{name!r}] writes into its argument ({e})')
+            continue
+        if not np.array_equal(a, base):
+            bad.append(f'est_functions[{name!r}] changed its argument')
+    th = np.pi * (np.arange(6) + 0.5) / 6
+    ph = 2 * np.pi * (np.arange(12) + 0.5) / 12
+    TH, PH = np.meshgrid(th, ph, indexing='ij')
+    fsph = rng.standard_normal(TH.shape) + 1j * rng.standard_normal(TH.shape)
+    sym3 = base[:3, :3, 0][:, :, None, None, None] * np.ones((3, 3, 2, 2, 2))
+    calls = {
+        'maths.sYlm_coefficients': lambda: M.sYlm_coefficients(-2, 3, ro(fsph.copy()), ro(TH.copy()), ro(PH.copy()), ro(np.sin(TH) * 0.1), 0.1),
+        'maths.sYlm_reconstruct': lambda: M.sYlm_reconstruct(0, 2, {(l, m): 1.0 + l for l in range(3) for m in range(-l, l + 1)}, ro(TH.copy()), ro(PH.copy())),
+        'maths.sYlm': lambda: M.sYlm(-2, 2, 1, ro(TH.copy()), ro(PH.copy())),
+        'maths.safe_division': lambda: M.safe_division(ro(base.copy()), ro(base.copy() * (base > 0))),
+        'maths.determinant3/inverse3': lambda: (M.determinant3(ro(sym3.copy())), M.inverse3(ro(sym3.copy() + 3 * np.eye(3)[:, :, None, None, None]))),
+        'maths.symmetrise/antisymmetrise': lambda: (M.symmetrise_tensor(ro(sym3.copy())), M.antisymmetrise_tensor(ro(sym3.copy()))),
+        'maths.format_rank2_3': lambda: M.format_rank2_3(ro(sym3.copy())),
+        'numerical.interpolate': lambda: N.interpolate(ro(base.copy()), (ro(np.arange(4.0)), ro(np.arange(5.0)), ro(np.arange(6.0))),
+                                                       (ro(np.array([1.5, 2.0])), ro(np.array([0.5, 3.0])), ro(np.array([2.5, 4.0])))),
+    }
+    for name, fn in calls.items():
+        try:
+            fn()
+        except ValueError as e:
+            if 'read-only' in str(e) or 'not writeable' in str(e):
+                bad.append(f'{name} writes into an argument ({e})')
+            else:
+                bad.append(f'{name} raised {e}')
+    for n in ('sYlm_coefficients', 'sYlm_reconstruct', 'sYlm', 'safe_division'):
+        R.under_contract(getattr(M, n))
+    R.bounded.append(dict(function='est_functions / aurel.maths / aurel.numerical', bound='one call per function on read-only C-contiguous arrays (control flow of these helpers does not depend on the data)'))
+    R.ob('time.est_functions + maths + numerical:frame (arguments are never written)', 'est_functions', 'refuted' if bad else 'bounded-ok', 'numpy-readonly',
+         time.time() - t0, '; '.join(bad[:5]), bad[:8] or None, bounded=f'{len(T.est_functions) + len(calls)} functions')
+
+
 def run(R):
     W = Worlds(R.seed)
     npts = 1
@@ -197,6 +252,7 @@ def run(R):
     chain_snapshot_obligations(R, W, 'onshell', R.seed, 2 if R.tier == 'quick' else 10)
     chain_snapshot_obligations(R, W, 'fluid', R.seed, 2 if R.tier == 'quick' else 10)
     over_time_frame_obligations(R)
+    estimator_and_maths_frame_obligations(R)
     alias_scan(R, 'aurel.time')
     alias_scan(R, 'aurel.reading')
     # (d) save/read argument objects: the C13 harness on a few shapes
